@@ -1036,3 +1036,60 @@ package engine
 //@   modifies b.stream.position
 //@   ensures[position-counts-bytes-written] b.stream.position == wrap64(old(b.stream.position) + result0)
 //@   at-call io.Writer.Write requires[forwards-unchanged-in-one-call] a0 == b.stream.sink && a1 == p
+
+//@ ---------------------------------------------------------------- placeholders: Go values as terms (C15)
+
+//@ extern reflect.Value.Kind
+//@   pure
+//@   deterministic
+//@ extern reflect.Value.Int
+//@   pure
+//@   deterministic
+//@ extern reflect.Value.Float
+//@   pure
+//@   deterministic
+//@ extern reflect.Value.String
+//@   pure
+//@   deterministic
+//@ extern reflect.Value.Len
+//@   pure
+//@   deterministic
+
+//@ -- the constructors a double-quoted literal goes through (parser) are the ones a Go string goes through (termOf)
+//@ func CharList
+//@   trusted
+//@   pure
+//@   deterministic
+//@ func CodeList
+//@   trusted
+//@   pure
+//@   deterministic
+//@ func NewAtom
+//@   trusted
+//@   pure
+//@   deterministic
+
+//@ func unDoubleQuote
+//@   trusted
+//@   pure
+//@   deterministic
+
+//@ type doubleQuotes invariant[valid] self == 0 || self == 1 || self == 2
+
+//@ spec fun dq(flag doubleQuotes, s string) Term = ite(flag == doubleQuotesCodes, CodeList(s), ite(flag == doubleQuotesAtom, NewAtom(s), CharList(s)))
+
+//@ func (*Parser).termOf
+//@   property C15
+//@   requires p != nil
+//@   nosafety
+//@   let kind = reflect.Value.Kind(o)
+//@   ensures[signed-integers-are-exact] kind == 2 || kind == 3 || kind == 4 || kind == 5 || kind == 6 ==> err == nil && result is Integer && (result as Integer) == reflect.Value.Int(o)
+//@   ensures[floats] kind == 14 ==> err == nil && result is Float && same(result as Float, reflect.Value.Float(o))
+//@   ensures[strings-are-double-quoted-literals] kind == 24 ==> err == nil && result == dq(p.doubleQuotes, reflect.Value.String(o))
+
+//@ func (*Parser).term0
+//@   property C15
+//@   requires p != nil
+//@   nosafety
+//@   at-call CharList requires[under-chars] p.doubleQuotes == doubleQuotesChars
+//@   at-call CodeList requires[under-codes] p.doubleQuotes == doubleQuotesCodes
